@@ -110,7 +110,11 @@ def run(rep):
             # re-sowing (documented as safe) from the same object and from a reloaded one must give the same partition
             dict(name="C07_resow", configs=cfgs[::3], acts=["reload", "resow"], max_steps=3, mode="bfs", need=["DoReSow"],
                  sample=1500 if rep.tier == "quick" else 12000)]
-    crop.drive(rep, runs, claims=lambda tag: tag in ("batches", "numbers", "outcome_sow", "outcome_reload", "obs_sow", "obs_reload",
+    def variants(case, idx):
+        v = crop.default_variants(case, idx)
+        v["sow_override"] = (idx % 2 == 0)      # (these histories only sow / reload / re-sow)
+        return v
+    crop.drive(rep, runs, variants=variants, claims=lambda tag: tag in ("batches", "numbers", "outcome_sow", "outcome_reload", "obs_sow", "obs_reload",
                                                      "dir_sow", "dir_reload", "outcome_resow", "obs_resow", "dir_resow"))
     resow_other_n(rep, 12 if rep.tier == "quick" else 77)
     rep.exhaustive = True
